@@ -226,6 +226,12 @@ func init() {
 			var gg *gen
 			units, patterns, err := codecUnits([]string{prop}, tier, "misc", func(g *gen, msgs []*Message) string {
 				gg = g
+				if prop == "C07" && g.mapN > 1 {
+					// thorough C07: one map entry (as in quick) with full-domain keys and values; two
+					// full-domain 64-bit entries exhausted the 12000-path budget (measured), and
+					// aliasing is a per-entry fact
+					g.mapN = 1
+				}
 				// thorough C05: two entries with keys over their FULL domain (quick: single-length key
 				// window); three full-domain entries exhausted a 12000-path budget (measured)
 				return g.MiscSource(prop, msgs, fieldFilterFor(tier))
